@@ -434,11 +434,20 @@ package leveldb
 //@     assert [C04:record-durable-before-committed] err == nil && calls("(*Writer).Flush") > old(calls("(*Writer).Flush")) && ((s.o.Options != nil && s.o.Options.NoSync) || calls("storage.Syncer.Sync") > old(calls("storage.Syncer.Sync")))
 
 // O5: a version is installed only by a commit that succeeded.
+//@ ghost var gSnapV ref
+//@ ghost var gSnapped bool
 //@ func (*session).commit
-//@   props C04 C08
+//@   props C04 C08 C06 C01
 //@   mode bv
+//@   at entry
+//@     ghost gSnapped = false
+//@   at before call (*session).newManifest#*
+//@     ghost gSnapV = arg1
+//@     ghost gSnapped = true
 //@   at before call (*session).setVersion#1
 //@     assert [C04,C08:install-only-on-success] err == nil
+//@     assert [C01,C04,C06:a-rewritten-manifest-snapshots-the-version-being-installed] gSnapped ==> arg1 == gSnapV
+//@     assert [C01,C04,C06:the-version-installed-is-the-one-spawned-from-this-record] arg0 == r && arg1 == nv
 //@   ensures [C08:failed-commit-keeps-version] err != nil ==> s.stVersion == old(s.stVersion)
 
 // O6: a memdb flush commits (journal number of the live journal, sequence number at freeze time) before the
